@@ -29,7 +29,9 @@ def filler(k, sz):
 def sizing_case(items):
     prog = []
     for k, it in enumerate(items, 1):
-        if it["k"] == "fix":
+        if it["k"] == "fix" and it["mx"] < it["sz"]:
+            prog.append(stmt("LDA", "idx", label="L%d" % k, sub="off", reg="X", expr=ex(num(20))))      # 3 bytes, max_size 2
+        elif it["k"] == "fix":
             prog.append(filler(k, it["sz"]))
         else:
             prog.append(stmt("LDA" if it["base"] == 2 else "LDY", "pcr", label="L%d" % k, expr=ex(sym("L%d" % it["tgt"]))))
